@@ -18,6 +18,15 @@ type Item struct {
 	Shape   []int
 	MapDesc bool
 	Solver  int // 0: default of the run, otherwise SolverKind+1
+	Pre     []PreCall // harnesses run before Func in the same process state (history items)
+}
+
+func (it Item) label() string {
+	s := fmt.Sprintf("%s%v", it.Func, it.Shape)
+	for i := len(it.Pre) - 1; i >= 0; i-- {
+		s += fmt.Sprintf(" after %s%v", it.Pre[i].Harness, it.Pre[i].Shape)
+	}
+	return s
 }
 
 type RunOpts struct {
@@ -115,7 +124,7 @@ func runItems(eng *Engine, items []Item, opts RunOpts, known map[string]bool) []
 				if h == nil {
 					r = &ItemResult{Harness: it.Func, Shape: it.Shape, Err: "harness function not found: " + it.Func}
 				} else {
-					r = ex.RunItem(h, it.Shape)
+					r = ex.RunItem(h, it.Shape, it.Pre)
 				}
 				r.Stats = sol.Stats
 				r.WallS = time.Since(t0).Seconds()
@@ -123,7 +132,7 @@ func runItems(eng *Engine, items []Item, opts RunOpts, known map[string]bool) []
 				mu.Lock()
 				done++
 				if opts.Verbose {
-					fmt.Fprintf(os.Stderr, "[%d/%d] %s%v paths=%d obl=%d/%d viol=%d known=%d inconc=%d err=%q %.2fs\n", done, len(items), it.Func, it.Shape, r.Paths, r.Discharged, r.Obligations, len(r.Violations), len(r.KnownHits), len(r.Inconclusive), r.Err, r.WallS)
+					fmt.Fprintf(os.Stderr, "[%d/%d] %s paths=%d obl=%d/%d viol=%d known=%d inconc=%d err=%q %.2fs\n", done, len(items), it.label(), r.Paths, r.Discharged, r.Obligations, len(r.Violations), len(r.KnownHits), len(r.Inconclusive), r.Err, r.WallS)
 				}
 				mu.Unlock()
 			}
@@ -183,10 +192,10 @@ func RunCheck(spec *PropSpec, opts RunOpts) int {
 	var viols, knownHits, witnesses []Finding
 	for i, r := range results {
 		if r.Err != "" {
-			inconc = append(inconc, fmt.Sprintf("%s%v: engine error: %s", items[i].Func, items[i].Shape, r.Err))
+			inconc = append(inconc, fmt.Sprintf("%s: engine error: %s", items[i].label(), r.Err))
 		}
 		for _, s := range r.Inconclusive {
-			inconc = append(inconc, fmt.Sprintf("%s%v: %s", items[i].Func, items[i].Shape, s))
+			inconc = append(inconc, fmt.Sprintf("%s: %s", items[i].label(), s))
 		}
 		viols = append(viols, r.Violations...)
 		knownHits = append(knownHits, r.KnownHits...)
@@ -194,7 +203,7 @@ func RunCheck(spec *PropSpec, opts RunOpts) int {
 			witnesses = append(witnesses, *r.Witness)
 		}
 		if r.Err == "" && len(r.Reached) == 0 && len(r.Violations) == 0 && len(r.KnownHits) == 0 {
-			inconc = append(inconc, fmt.Sprintf("%s%v: VACUOUS: no path reached a verifReach site", items[i].Func, items[i].Shape))
+			inconc = append(inconc, fmt.Sprintf("%s: VACUOUS: no path reached a verifReach site", items[i].label()))
 		}
 	}
 	if vf := os.Getenv("GOSMT_VIOLOUT"); vf != "" {
@@ -313,11 +322,11 @@ func RunCheck(spec *PropSpec, opts RunOpts) int {
 			type key struct{ f, s string }
 			want := map[key]bool{}
 			for _, c := range mism {
-				want[key{c.Harness, fmt.Sprint(c.Shape)}] = true
+				want[key{c.Harness, fmt.Sprint(c.Shape, c.Pre)}] = true
 			}
 			var sub []Item
 			for _, it := range items {
-				if want[key{it.Func, fmt.Sprint(it.Shape)}] {
+				if want[key{it.Func, fmt.Sprint(it.Shape, it.Pre)}] {
 					sub = append(sub, it)
 				}
 			}
